@@ -8,7 +8,7 @@ use super::super::state::PortState;
 use super::super::*;
 use super::slave_h::{stub_as_core_duration, stub_mul_f64};
 use crate::datastructures::common::{TimeInterval, WireTimestamp};
-use crate::datastructures::messages::{DelayReqMessage, Header, MessageBody};
+use crate::datastructures::messages::{DelayReqMessage, Header, Message, MessageBody};
 use crate::verif_gen::*;
 
 /// Stand-in for `WireTimestamp::from(Time)` (seconds = floor(ns / 10^9), nanos = ns mod 10^9): the 128-bit
@@ -21,17 +21,15 @@ pub(crate) fn stub_wire_from_time(t: Time) -> WireTimestamp {
     WireTimestamp { seconds: ((b >> 62) as u64) & 0xffff_ffff_ffff, nanos: ((b >> 32) as u32) & 0x3fff_ffff }
 }
 
-fn bears_identity(h: &SpecFrame, own: PortIdentity, inst: &InstanceView) -> bool {
-    h.source == own && h.sdo_id == u16::from(inst.default_ds.sdo_id) && h.domain == inst.default_ds.domain_number
-}
-fn wire_eq(ts: (u64, u32), w: WireTimestamp) -> bool {
-    ts.0 == w.seconds && ts.1 == w.nanos
+fn bears_identity(h: &Header, own: PortIdentity, inst: &InstanceView) -> bool {
+    h.source_port_identity == own && h.sdo_id == inst.default_ds.sdo_id && h.domain_number == inst.default_ds.domain_number
 }
 
 /// Sync: only from Master; sequence id +1 mod 2^16; one event send with the Sync context; sync timer re-armed.
 #[kani::proof]
 #[kani::unwind(9)]
 #[kani::stub(PortActionIterator::from, PortActionIterator::verif_recording_from)]
+#[kani::stub(Message::serialize, Message::verif_recording_serialize)]
 #[kani::stub(crate::time::Interval::as_core_duration, stub_as_core_duration)]
 fn c10_send_sync() {
     let lock = ChkLock::new(any_instance_state(0));
@@ -52,10 +50,9 @@ fn c10_send_sync() {
         assert!(actions.n == 2 && actions.n_reset_sync == 1 && actions.n_send_event == 1);
         assert!(actions.ctx_kind == 0 && actions.ctx_id == id);
         let f = actions.event.unwrap();
-        assert!(!f.link_local && frame_well_formed(&f, 0x0));
-        let h = spec_frame(&f);
-        // twoStepFlag (Table 37 octet 0 bit 1): statime is a two-step master
-        assert!(h.sequence_id == id && bears_identity(&h, own, &inst) && (h.flags0 & 0b10) != 0);
+        let (h, _b) = emitted_message(&f, 0x0);
+        // statime is a two-step master
+        assert!(!f.link_local && h.sequence_id == id && bears_identity(&h, own, &inst) && h.two_step_flag);
     } else {
         // C08: Sync only by ports in the master state
         assert!(post == want && actions.n == 0);
@@ -69,6 +66,7 @@ fn c10_send_sync() {
 #[kani::proof]
 #[kani::unwind(9)]
 #[kani::stub(PortActionIterator::from, PortActionIterator::verif_recording_from)]
+#[kani::stub(Message::serialize, Message::verif_recording_serialize)]
 #[kani::stub(<WireTimestamp as core::convert::From<Time>>::from, stub_wire_from_time)]
 fn c10_follow_up_for_sync_timestamp() {
     let lock = ChkLock::new(any_instance_state(0));
@@ -87,12 +85,11 @@ fn c10_follow_up_for_sync_timestamp() {
     if pre.tag == 2 {
         assert!(actions.n == 1 && actions.n_send_general == 1 && actions.n_send_event == 0);
         let f = actions.general.unwrap();
-        assert!(!f.link_local && frame_well_formed(&f, 0x8));
-        let h = spec_frame(&f);
-        assert!(h.sequence_id == id && bears_identity(&h, own, &inst));
+        let (h, b) = emitted_message(&f, 0x8);
+        assert!(!f.link_local && h.sequence_id == id && bears_identity(&h, own, &inst));
         // sub-nanosecond part of the timestamp, in 2^-16 ns: bits 16..32 of the 2^-32 ns fraction
-        assert!(h.correction as i128 == ((time_bits(ts) & 0xffff_ffff) >> 16) as i128);
-        assert!(wire_eq(h.ts, stub_wire_from_time(ts)));
+        assert!(h.correction_field.0.to_bits() as i128 == ((time_bits(ts) & 0xffff_ffff) >> 16) as i128);
+        match b { MessageBody::FollowUp(m) => assert!(m.precise_origin_timestamp == stub_wire_from_time(ts)), _ => assert!(false) }
     } else {
         assert!(actions.n == 0);
     }
@@ -110,6 +107,7 @@ fn delay_req_correction_in_range(h: &Header) -> bool {
 #[kani::proof]
 #[kani::unwind(9)]
 #[kani::stub(PortActionIterator::from, PortActionIterator::verif_recording_from)]
+#[kani::stub(Message::serialize, Message::verif_recording_serialize)]
 #[kani::stub(<WireTimestamp as core::convert::From<Time>>::from, stub_wire_from_time)]
 fn c10_delay_resp_for_delay_req() {
     let lock = ChkLock::new(any_instance_state(0));
@@ -121,7 +119,6 @@ fn c10_delay_resp_for_delay_req() {
     // what parse_and_filter lets through: the instance's domain and sdoId
     req.sdo_id = inst.default_ds.sdo_id;
     req.domain_number = inst.default_ds.domain_number;
-    kani::assume(delay_req_correction_in_range(&req));
     let msg = DelayReqMessage { origin_timestamp: any_wire_timestamp() };
     let ts = any_time();
 
@@ -132,13 +129,19 @@ fn c10_delay_resp_for_delay_req() {
     if pre.tag == 2 {
         assert!(actions.n == 1 && actions.n_send_general == 1 && actions.n_send_event == 0);
         let f = actions.general.unwrap();
-        assert!(!f.link_local && frame_well_formed(&f, 0x9));
-        let h = spec_frame(&f);
-        assert!(h.sequence_id == req.sequence_id && bears_identity(&h, own, &inst));
-        assert!(h.correction as i128
-            == req.correction_field.0.to_bits() as i128 + ((time_bits(ts) & 0xffff_ffff) >> 16) as i128);
-        assert!(wire_eq(h.ts, stub_wire_from_time(ts)));
-        assert!(h.body_identity == req.source_port_identity);
+        let (h, b) = emitted_message(&f, 0x9);
+        assert!(!f.link_local && h.sequence_id == req.sequence_id && bears_identity(&h, own, &inst));
+        // request correction + sub-ns part; IEEE 1588 7.3.4.2 / 13.3.2.9: a correction too large to be
+        // represented is the maximum value
+        let sum = req.correction_field.0.to_bits() as i128 + ((time_bits(ts) & 0xffff_ffff) >> 16) as i128;
+        assert!(h.correction_field.0.to_bits() as i128 == if sum > i64::MAX as i128 { i64::MAX as i128 } else { sum });
+        match b {
+            MessageBody::DelayResp(m) => {
+                assert!(m.receive_timestamp == stub_wire_from_time(ts));
+                assert!(m.requesting_port_identity == req.source_port_identity);
+            }
+            _ => assert!(false),
+        }
     } else {
         // C08: Delay_Resp only by ports in the master state
         assert!(actions.n == 0);
@@ -151,6 +154,7 @@ fn c10_delay_resp_for_delay_req() {
 #[kani::proof]
 #[kani::unwind(9)]
 #[kani::stub(PortActionIterator::from, PortActionIterator::verif_recording_from)]
+#[kani::stub(Message::serialize, Message::verif_recording_serialize)]
 #[kani::stub(<WireTimestamp as core::convert::From<Time>>::from, stub_wire_from_time)]
 fn c10_pdelay_resp_for_pdelay_req() {
     let lock = ChkLock::new(any_instance_state(0));
@@ -168,18 +172,23 @@ fn c10_pdelay_resp_for_pdelay_req() {
     assert!(actions.n == 1 && actions.n_send_event == 1 && actions.n_send_general == 0);
     assert!(actions.ctx_kind == 3 && actions.ctx_id == req.sequence_id && actions.ctx_requestor == Some(req.source_port_identity));
     let f = actions.event.unwrap();
-    assert!(f.link_local && frame_well_formed(&f, 0x3));
-    let h = spec_frame(&f);
-    assert!(h.sequence_id == req.sequence_id && bears_identity(&h, own, &inst));
-    assert!(h.correction == req.correction_field.0.to_bits());
-    assert!(wire_eq(h.ts, stub_wire_from_time(ts)));
-    assert!(h.body_identity == req.source_port_identity);
+    let (h, b) = emitted_message(&f, 0x3);
+    assert!(f.link_local && h.sequence_id == req.sequence_id && bears_identity(&h, own, &inst));
+    assert!(h.correction_field == req.correction_field);
+    match b {
+        MessageBody::PDelayResp(m) => {
+            assert!(m.request_receive_timestamp == stub_wire_from_time(ts));
+            assert!(m.requesting_port_identity == req.source_port_identity);
+        }
+        _ => assert!(false),
+    }
 }
 
 /// Pdelay_Resp_Follow_Up for the reported transmit time of the response.
 #[kani::proof]
 #[kani::unwind(9)]
 #[kani::stub(PortActionIterator::from, PortActionIterator::verif_recording_from)]
+#[kani::stub(Message::serialize, Message::verif_recording_serialize)]
 #[kani::stub(<WireTimestamp as core::convert::From<Time>>::from, stub_wire_from_time)]
 fn c10_pdelay_resp_follow_up_for_timestamp() {
     let lock = ChkLock::new(any_instance_state(0));
@@ -198,9 +207,13 @@ fn c10_pdelay_resp_follow_up_for_timestamp() {
     assert!(post == pre);
     assert!(actions.n == 1 && actions.n_send_general == 1 && actions.n_send_event == 0);
     let f = actions.general.unwrap();
-    assert!(f.link_local && frame_well_formed(&f, 0xa));
-    let h = spec_frame(&f);
-    assert!(h.sequence_id == id && bears_identity(&h, own, &inst));
-    assert!(wire_eq(h.ts, stub_wire_from_time(ts)));
-    assert!(h.body_identity == requestor);
+    let (h, b) = emitted_message(&f, 0xa);
+    assert!(f.link_local && h.sequence_id == id && bears_identity(&h, own, &inst));
+    match b {
+        MessageBody::PDelayRespFollowUp(m) => {
+            assert!(m.response_origin_timestamp == stub_wire_from_time(ts));
+            assert!(m.requesting_port_identity == requestor);
+        }
+        _ => assert!(false),
+    }
 }
